@@ -1,0 +1,60 @@
+//go:build verif
+
+// Contracts for govc (see /verif/DESIGN.md). Comment-only file.
+
+package mux
+
+//@ property C14
+//@ pragma mode bv
+
+// The bytes handed to Write1, in order (ghost output stream of a WriteBuf).
+//@ ghost var wlog bytes
+//@ ghost var wlen int
+
+// zig-zag + base-128 varint, closed form
+//@ spec zz(i int64) uint64 = uint64((i << 1) ^ (i >> 63))
+//@ spec encLen(u uint64) int = u < 128 ? 1 : u < 16384 ? 2 : u < 2097152 ? 3 : u < 268435456 ? 4 : u < 34359738368 ? 5 : u < 4398046511104 ? 6 : u < 562949953421312 ? 7 : u < 72057594037927936 ? 8 : u < 9223372036854775808 ? 9 : 10
+//@ spec encByte(u uint64, j int) byte = byte(((u >> (7 * j)) & 127) | (j < encLen(u) - 1 ? 128 : 0))
+
+// Write1 appends one byte to the output stream whatever the buffer fill level
+// (assumed here: its flush path goes through conn.write, i.e. the network).
+//@ func (wb *WriteBuf) Write1(data) (r)
+//@   assumed
+//@   modifies wlog, wlen, wb.buf, elems(wb.buf)
+//@   ensures r == wb && wlen == old(wlen) + 1 && wlog == update(old(wlog), old(wlen), data)
+//@   ensures ref(wb.buf) == old(ref(wb.buf)) || fresh(wb.buf)
+
+//@ spec logged(u uint64, base int, j int) bool = j < encLen(u) ==> wlog[base + j] == encByte(u, j)
+
+//@ func (wb *WriteBuf) PutInt64(i) (r)
+//@   requires wb != nil && 0 <= wlen && wlen < 4611686018427387904
+//@   modifies wlog, wlen, wb.buf, elems(wb.buf)
+//@   ensures! length: r == wb && wlen == old(wlen) + encLen(zz(i))
+//@   ensures! byte0: logged(zz(i), old(wlen), 0)
+//@   ensures! byte1: logged(zz(i), old(wlen), 1)
+//@   ensures! byte2: logged(zz(i), old(wlen), 2)
+//@   ensures! byte3: logged(zz(i), old(wlen), 3)
+//@   ensures! byte4: logged(zz(i), old(wlen), 4)
+//@   ensures! byte5: logged(zz(i), old(wlen), 5)
+//@   ensures! byte6: logged(zz(i), old(wlen), 6)
+//@   ensures! byte7: logged(zz(i), old(wlen), 7)
+//@   ensures! byte8: logged(zz(i), old(wlen), 8)
+//@   ensures! byte9: logged(zz(i), old(wlen), 9)
+//@   ensures! prefix: forall k :: 0 <= k && k < old(wlen) ==> wlog[k] == old(wlog[k])
+//@   loop 0 unroll 10
+
+//@ func (rb *ReadBuf) GetByte() (b)
+//@   inline
+
+//@ spec holds(rb *ReadBuf, u uint64, j int) bool = j < encLen(u) ==> rb.buf[j] == encByte(u, j)
+
+//@ func (rb *ReadBuf) GetInt64() (r)
+//@   witness u uint64
+//@   requires rb != nil && len(rb.buf) >= encLen(u)
+//@   requires holds(rb, u, 0) && holds(rb, u, 1) && holds(rb, u, 2) && holds(rb, u, 3) && holds(rb, u, 4) && holds(rb, u, 5) && holds(rb, u, 6) && holds(rb, u, 7) && holds(rb, u, 8) && holds(rb, u, 9)
+//@   modifies rb.buf
+//@   ensures! value: zz(r) == u
+//@   ensures! consumed: ref(rb.buf) == old(ref(rb.buf)) && off(rb.buf) == old(off(rb.buf)) + encLen(u) && len(rb.buf) == old(len(rb.buf)) - encLen(u)
+//@   loop 0 unroll 10
+
+//@ lemma! zz_injective(a int64, b int64): zz(a) == zz(b) ==> a == b
